@@ -184,6 +184,7 @@ class Net(object):
         self.connect_failures = collections.deque()   # exceptions to raise on next connects
         self._orig = None
         self.default_peer = None
+        self.connect_gate = None     # optional callable(host, port) -> awaitable (scheduler-controlled connects)
 
     def add_peer(self, host, port, peer):
         self.peers[(host, port)] = peer
@@ -200,7 +201,10 @@ class Net(object):
             self._orig = None
 
     async def open_connection(self, host=None, port=None, **kwargs):
-        await asyncio.sleep(0)
+        if self.connect_gate is not None:
+            await self.connect_gate(host, port)
+        else:
+            await asyncio.sleep(0)
         if self.connect_failures:
             exc = self.connect_failures.popleft()
             if exc is not None:
